@@ -4,6 +4,6 @@ CONSTANTS
   Export = ""
   Kinds = {"call", "push"}
   Routes = {"reg", "unreg", "unknown"}
-  Houts = {"ok", "status", "panic"}
+  Houts = {"ok", "status", "panic", "unpackable"}
 INVARIANTS AtMostOneHandler OneReply HookOnce VetoStops CallerVetoStops OKIff Scoped
 CHECK_DEADLOCK FALSE
